@@ -176,6 +176,10 @@ def bounded(rep, tier):
                                         dict(function=m + ':validate', input=v, altered=y), True, still_fails)
                             break
     rep.add('C17/corpus', 'bounded', 'eval', time.time() - t0, detail='%d single edits of corpus numbers on the real code (bounded stand-in)' % n)
+    # the formats above delegate to the generic algorithm modules, whose guarantees (C06) are used here as callee contracts:
+    # the exhaustive short-string net of C06 is run here too, so that a broken generic module is reported under this property
+    from . import c06
+    c06.bounded_native(rep, tier)
 
 
 def check(prop, tier, args):
